@@ -5,7 +5,7 @@
 
 use crate::common::*;
 use crate::model::KsModel;
-use crate::{ensure, ensure_eq_bytes};
+use crate::{ensure, ensure_eq_bytes, pick};
 use vp_base::obj::*;
 use vp_base::tape::{self, Tape};
 
@@ -15,7 +15,7 @@ so that s_0+i wraps, start position (block in {0, small, 2^8k+-2, random, near 2
 blocks, or the sum wraps, or a non-zero start; distinct by hash of decoded values";
 
 pub fn check(ctx: &Ctx, t: &mut Tape<'_>, r: &mut Report) -> CheckResult {
-    let suite = ctx.pick_suite(t, |s| s.stream(StreamKind::Belt).is_some());
+    let suite = pick!(ctx, t, r, |s| s.has_stream(StreamKind::Belt));
     let f = suite.stream(StreamKind::Belt).unwrap();
     let bs = 16;
     let par = suite.info.par;
